@@ -377,6 +377,39 @@ def dead_load_corpus():
     return out
 
 
+DEEP_PINNED = ["DUP11 ADD SWAP11 POP DUP15 POP POP POP SWAP16 SWAP12 DUP10 SWAP12 ADD",
+               "ADD DUP11 POP SWAP8 ADD ADD POP POP DUP16 DUP14 DUP11 DUP14 PUSH1 0x2 DUP10",
+               "DUP10 POP ADD SWAP10 ADD POP DUP16 DUP14 SWAP12 PUSH1 0x8 POP DUP15 DUP13",
+               "SWAP15 PUSH1 0x3 SWAP9 SWAP14 PUSH1 0x2 POP ADD SWAP9 ADD POP POP POP ADD DUP12 SWAP13",
+               "DUP10 POP POP ADD SWAP12 SWAP11 POP POP POP SWAP12 DUP13 SWAP10 ADD SWAP16",
+               "DUP14 POP SWAP8 ADD SWAP15 POP DUP14 POP POP ADD POP PUSH1 0x8 ADD DUP11 PUSH1 0x3",
+               "PUSH1 0x3 PUSH1 0x7 ADD SWAP15 ADD PUSH1 0x5 POP SWAP8 POP DUP10 POP POP",
+               "SWAP11 ADD SWAP9 SWAP12 POP POP SWAP16 SWAP15 SWAP16 PUSH1 0x4 POP DUP16 POP DUP16"]
+
+
+def deep_stack_blocks(seed, n):
+    """blocks that work 10 to 17 words deep and drop words on the way: the greedy algorithm has to clear words out of the way
+    (`clean_stack`, found with the line-coverage diagnostic: SWAPi POP of a word that is not on top) before it can reach an operand"""
+    rng = random.Random(seed)
+    out = list(DEEP_PINNED)
+    for _ in range(n):
+        toks = []
+        for _ in range(rng.randrange(6, 16)):
+            r = rng.random()
+            if r < 0.3:
+                toks.append("POP")
+            elif r < 0.55:
+                toks.append("DUP%d" % rng.randrange(10, 17))
+            elif r < 0.8:
+                toks.append("SWAP%d" % rng.randrange(8, 17))
+            elif r < 0.9:
+                toks.append(rng.choice(["ADD", "SUB", "LT", "MSTORE"]))
+            else:
+                toks.append("PUSH1 0x%x" % rng.randrange(1, 9))
+        out.append(" ".join(toks))
+    return out
+
+
 def cross_region_corpus():
     """a value loaded from one region (kept in that region's order by a later store to the same place) that an operation of the other
     region stores, with independent stores before and after it in both regions: the two orders have to be merged around the load"""
